@@ -28,6 +28,7 @@ type evidence struct {
 	funcs      map[string]bool
 	knownSeen  []string
 	exhaustive bool
+	partial    bool // -only was given
 }
 
 func newEvidence(prop, tier string, seed int) *evidence {
@@ -125,6 +126,11 @@ func (e *evidence) write() error {
 		return err
 	}
 	dir := filepath.Join(verifDir, "evidence")
+	if e.partial || (e.tier != "quick" && e.tier != "thorough") {
+		// a development run (one harness only, or a non-registered tier) must not replace the
+		// evidence of the registered check
+		dir = filepath.Join(dir, "dev")
+	}
 	os.MkdirAll(dir, 0o755)
 	return os.WriteFile(filepath.Join(dir, fmt.Sprintf("%s.json", e.prop)), b, 0o644)
 }
